@@ -55,11 +55,7 @@ mod verif_ift_patchmap {
         b[40] = 3;
         b[42] = 1; // glyph map: firstMappedGlyph = glyphCount, no entries
         let fm: [u8; 21] = kani::any();
-        let mut i = 0;
-        while i < 21 {
-            b[43 + i] = fm[i];
-            i += 1;
-        }
+        b[43..64].copy_from_slice(&fm);
         let map = PatchMapFormat1::read(FontData::new(&b)).unwrap();
         let mut entries: BTreeMap<u16, SubsetDefinition> = BTreeMap::new();
         let r = intersect_format1_feature_map::<false>(&map, &FeatureSet::All, &mut entries);
